@@ -10,7 +10,10 @@
    PostAlign    (every write-back of alignment results to molecules): C01 / C05 loader clause
      Displacement   the molecule moved by the reported shift in its own frame: R^-1 (p' - p)/scale = shift
      Orientation    R' = R o q  (angle error <= 200 micro-radians)
-     Features       align-d* = round(shift * scale, 2), align-d*rot = round(rotvec(q), 5), score copied *)
+     Features       align-d* = round(shift * scale, 2), align-d*rot = round(rotvec(q), 5), score copied
+   LoaderAlign  (every loader / group align call):                 C05 loader clause
+     LoaderInRange  |R^-1 (p' - p)| <= the caller's max_shifts along each molecule axis
+     SameMolecules  the result has as many molecules as the input *)
 EXTENDS Integers, Sequences, FiniteSets, TLC, TLCExt, Json, IOUtils
 Tr == ndJsonDeserialize(IOEnv.TRACE_FILE)
 VARIABLES l, bad
@@ -35,7 +38,14 @@ PostClauses(e) == {c \in {"Displacement", "Orientation", "Features"} :
     ~ CASE c = "Displacement" -> \A i \in 1..Len(e.rows) : RowDisp(e.rows[i])
         [] c = "Orientation" -> \A i \in 1..Len(e.rows) : RowRot(e.rows[i])
         [] c = "Features" -> \A i \in 1..Len(e.rows) : RowFeat(e.rows[i])}
-Clauses(e) == CASE e.kind = "AlignReturn" -> AlignClauses(e) [] e.kind = "PostAlign" -> PostClauses(e) [] OTHER -> {}
+(* loader level (C05, last sentence): an aligned molecule is displaced by at most the CALLER's max_shifts (nm)
+   along each of its own axes:  |d_int (px)| * scale <= max_shifts (nm), fixed point 1e-3 with 2 units of slack *)
+RowWithin(r, e) == \A i \in 1..3 : Abs(r[i]) * e.scale_milli <= (e.max_shifts_nm[i] + 2) * 1000
+LoaderClauses(e) == {c \in {"LoaderInRange", "SameMolecules"} :
+    ~ CASE c = "LoaderInRange" -> \A i \in 1..Len(e.rows) : RowWithin(e.rows[i], e)
+        [] c = "SameMolecules" -> e.same_count}
+Clauses(e) == CASE e.kind = "AlignReturn" -> AlignClauses(e) [] e.kind = "PostAlign" -> PostClauses(e)
+                [] e.kind = "LoaderAlign" -> LoaderClauses(e) [] OTHER -> {}
 
 Init == l = 1 /\ bad = <<>>
 Next == /\ l <= Len(Tr)
